@@ -90,7 +90,7 @@ def main():
             rc, out = sh(["go1.26.8", "build", "./..."], cwd=WT)
             if rc != 0:
                 print("%s: does not build\n%s" % (m["id"], out[-600:])); continue
-            src, sout = sh(["go1.26.8", "test", "-count=1", "./..."], cwd=WT, timeout=600)
+            src, sout = sh(["go1.26.8", "test", "-count=1", "./..."], cwd=WT, timeout=3000)
             suite = "suite-green" if src == 0 else "suite-RED"
             res = {}
             for pid in m["props"]:
